@@ -4,7 +4,10 @@
 
    NOT covered by a theorem (S/K only): plaquette coverage (Sutherland–Hodgman clipped areas
    sum to the plaquette area, no overlap), vertices at their positions (definitional in the
-   model), arrows, the parallel/colinear tolerance branches of line_intersection (K only). *)
+   model), arrows, the parallel/colinear tolerance branches of line_intersection (K only).
+   (The plaquette part of this note is superseded by the sections "PLAQUETTES, second part", "EXACT regions" and
+   "ARBITRARY POLYGONS" below; the last section states the lattice-level theorems — each selected edge drawn as exactly
+   its visible translates, total length for a whole call, plot_dual — and the colour glue of Model/PlotGlue.v.) *)
 From Coq Require Import List ZArith QArith Bool Qminmax Qabs.
 From Coq Require Import Lqa Lia.
 From Koala Require Import Model.Clip Model.Plot Proofs.ClipFacts Proofs.PlotFacts Proofs.VisFacts Proofs.CoverFacts Proofs.PlaqFacts.
@@ -571,6 +574,21 @@ Theorem C16_overlap_piece_in_cell : forall (S : polygon) (ccw : bool) (p : point
   Forall in_unit_square (clip_polygon (gsh_edges ccw p p r S)).
 Proof. exact overlap_piece_in_cell. Qed.
 Print Assumptions C16_overlap_piece_in_cell.
+
+(* the two sides of ANY line (through a and b, a <> b) share the signed area of ANY polygon: the
+   general clipper is area-additive like the axis-parallel one (C16_clip_area_additive) *)
+From Koala Require Import Proofs.ClipGenArea.
+Theorem C16_overlap_clip_area_additive : forall (a b : point) (S : polygon),
+  ~ (px a == px b /\ py a == py b) ->
+  area2 (gsh_clip1 true a b S) + area2 (gsh_clip1 false a b S) == area2 S.
+Proof. exact gsh_clip1_area_add. Qed.
+Print Assumptions C16_overlap_clip_area_additive.
+
+(* non-vacuity: the diagonal x = y cuts the L-shaped hexagon ex_L (below) into two pieces of (twice the) area 15/16 each *)
+Example C16_overlap_clip_area_nonvacuous :
+  let S : polygon := [(1#2, 1#2); (3#2, 1#2); (3#2, 5#4); (5#4, 5#4); (5#4, 3#2); (1#2, 3#2)] in
+  area2 (gsh_clip1 true (0, 0) (1, 1) S) == 15#16 /\ area2 (gsh_clip1 false (0, 0) (1, 1) S) == 15#16 /\ area2 S == 15#8.
+Proof. cbv zeta. repeat split; apply Qeqb_iff; vm_compute; reflexivity. Qed.
 
 (* non-vacuity / a NON-CONVEX plaquette: an L-shaped hexagon around the cell corner (1,1) (not convex,
    in the block, no vertex on a cell line, one vertex in the cell): four translates are drawn, the
